@@ -422,10 +422,61 @@ type cmpFacts struct {
 	nilSafe bool   // (edit only) the condition also tests the pointer against nil first
 }
 
-func resolveAliases(clause []ast.Stmt, e ast.Expr) string {
+// singleDefLocals: locals of fn that are defined exactly once (`x := e`, one name per side) and never assigned
+// again, incremented or used as a range variable — such a name IS the expression it was bound to, provided the
+// expression is pure (the caller only accepts known pure right-hand sides such as MAX_COMMISSION()).
+func singleDefLocals(fn *ast.FuncDecl) map[string]string {
+	defs := map[string]string{}
+	count := map[string]int{}
+	ast.Inspect(fn.Body, func(n ast.Node) bool {
+		switch x := n.(type) {
+		case *ast.AssignStmt:
+			for i, l := range x.Lhs {
+				id, ok := l.(*ast.Ident)
+				if !ok {
+					continue
+				}
+				count[id.Name]++
+				if x.Tok == token.DEFINE && len(x.Lhs) == len(x.Rhs) {
+					defs[id.Name] = Nospace(x.Rhs[i])
+				} else {
+					count[id.Name]++ // plain assignment or multi-value define: not a constant binding
+				}
+			}
+		case *ast.IncDecStmt:
+			if id, ok := x.X.(*ast.Ident); ok {
+				count[id.Name] += 2
+			}
+		case *ast.RangeStmt:
+			for _, e := range []ast.Expr{x.Key, x.Value} {
+				if id, ok := e.(*ast.Ident); ok {
+					count[id.Name] += 2
+				}
+			}
+		}
+		return true
+	})
+	out := map[string]string{}
+	for n, e := range defs {
+		if count[n] == 1 {
+			out[n] = e
+		}
+	}
+	return out
+}
+
+// cmpEnv: what is needed to read an expression of a type-switch clause semantically.
+type cmpEnv struct {
+	switchVar string            // `switch v := msg.(type)`: v is the message
+	fnLocals  map[string]string // single-definition locals of the enclosing function
+}
+
+// aliasesOf: `x := e` definitions made directly in the clause or in the Init of one of its if statements.
+func aliasesOf(clause []ast.Stmt) map[string]string {
 	alias := map[string]string{}
-	for _, s := range clause {
-		if as, ok := s.(*ast.AssignStmt); ok && len(as.Lhs) == len(as.Rhs) {
+	add := func(st ast.Stmt) {
+		// `x := e` and a later straight-line `x = e2` (the last binding before the comparison wins)
+		if as, ok := st.(*ast.AssignStmt); ok && (as.Tok == token.DEFINE || as.Tok == token.ASSIGN) && len(as.Lhs) == len(as.Rhs) {
 			for i, l := range as.Lhs {
 				if id, ok := l.(*ast.Ident); ok {
 					alias[id.Name] = Nospace(as.Rhs[i])
@@ -433,24 +484,61 @@ func resolveAliases(clause []ast.Stmt, e ast.Expr) string {
 			}
 		}
 	}
-	s := Nospace(e)
-	s = strings.TrimPrefix(s, "*")
-	if v, ok := alias[s]; ok {
-		return v
+	for _, s := range clause {
+		add(s)
+		if ifs, ok := s.(*ast.IfStmt); ok && ifs.Init != nil {
+			add(ifs.Init)
+		}
+	}
+	return alias
+}
+
+// resolve rewrites an expression to a normal form: dereference stripped, clause aliases and constant locals
+// unfolded (a few steps), the type-switch variable called `msg`.
+func resolve(env cmpEnv, alias map[string]string, e ast.Expr) string {
+	s := strings.TrimPrefix(Nospace(e), "*")
+	for i := 0; i < 4; i++ {
+		if v, ok := alias[s]; ok {
+			s = strings.TrimPrefix(v, "*")
+			continue
+		}
+		if v, ok := env.fnLocals[s]; ok {
+			s = v
+			continue
+		}
+		break
+	}
+	if env.switchVar != "" && env.switchVar != "_" {
+		if s == env.switchVar {
+			s = "msg"
+		} else if strings.HasPrefix(s, env.switchVar+".") {
+			s = "msg." + strings.TrimPrefix(s, env.switchVar+".")
+		}
 	}
 	return s
 }
 
-func cmpIn(clause []ast.Stmt) cmpFacts {
+// cmpIn reads the first `if … X.CMP(bound) … { return err }` of a clause.  Nil-safety of a pointer operand is
+// either `X != nil && X.CMP(bound)` in the same condition or an earlier `if X == nil { continue }`.
+func cmpIn(env cmpEnv, clause []ast.Stmt) cmpFacts {
 	c := cmpFacts{operand: "?", method: "?", bound: "?"}
+	alias := aliasesOf(clause)
+	nilGuarded := map[string]bool{} // operands (normal form) behind an earlier `if X == nil { continue }`
 	for _, s := range clause {
 		ifs, ok := s.(*ast.IfStmt)
 		if !ok {
 			continue
 		}
+		if be, ok := ifs.Cond.(*ast.BinaryExpr); ok && be.Op == token.EQL && Nospace(be.Y) == "nil" && ifs.Else == nil && len(ifs.Body.List) == 1 {
+			if br, ok := ifs.Body.List[0].(*ast.BranchStmt); ok && br.Label == nil && (br.Tok == token.CONTINUE || br.Tok == token.BREAK) {
+				nilGuarded[resolve(env, alias, be.X)] = true
+				continue
+			}
+		}
+		found := false
 		ast.Inspect(ifs.Cond, func(n ast.Node) bool {
 			call, ok := n.(*ast.CallExpr)
-			if !ok {
+			if !ok || found {
 				return true
 			}
 			sel, ok := call.Fun.(*ast.SelectorExpr)
@@ -459,15 +547,29 @@ func cmpIn(clause []ast.Stmt) cmpFacts {
 			}
 			switch sel.Sel.Name {
 			case "GT", "GTE", "LT", "LTE", "Equal", "IsNil":
+				found = true
 				c.method = sel.Sel.Name
-				c.operand = resolveAliases(clause, sel.X)
-				c.bound = Nospace(call.Args[0])
+				c.operand = resolve(env, alias, sel.X)
+				c.bound = resolve(env, alias, call.Args[0])
 			}
 			return true
 		})
-		cond := Nospace(ifs.Cond)
-		c.nilSafe = strings.Contains(cond, "!=nil&&")
+		if !found {
+			continue
+		}
+		// `A != nil && …` in the same condition, where A is the operand
+		inCond := false
+		ast.Inspect(ifs.Cond, func(n ast.Node) bool {
+			if be, ok := n.(*ast.BinaryExpr); ok && be.Op == token.LAND {
+				if l, ok := be.X.(*ast.BinaryExpr); ok && l.Op == token.NEQ && Nospace(l.Y) == "nil" && resolve(env, alias, l.X) == c.operand {
+					inCond = true
+				}
+			}
+			return true
+		})
+		c.nilSafe = inCond || nilGuarded[c.operand]
 		c.rejects = returnsError(ifs.Body)
+		break
 	}
 	return c
 }
@@ -567,14 +669,20 @@ func Emit(repo string) {
 				if !ok {
 					return true
 				}
+				env := cmpEnv{fnLocals: singleDefLocals(f)}
+				if as, ok := ts.Assign.(*ast.AssignStmt); ok && len(as.Lhs) == 1 {
+					if id, ok := as.Lhs[0].(*ast.Ident); ok {
+						env.switchVar = id.Name
+					}
+				}
 				for _, c := range ts.Body.List {
 					cc := c.(*ast.CaseClause)
 					for _, e := range cc.List {
 						switch typeName(e) {
 						case "stakingtypes.MsgCreateValidator":
-							create = cmpIn(cc.Body)
+							create = cmpIn(env, cc.Body)
 						case "stakingtypes.MsgEditValidator":
-							edit = cmpIn(cc.Body)
+							edit = cmpIn(env, cc.Body)
 						}
 					}
 				}
